@@ -686,6 +686,101 @@ def r12_12(ctx, fx):
     ctx.floor(rid, npaths, 40, "paths reaching combine(rl, ru)")
 
 
+def r12_13(ctx, fx):
+    import itertools
+    from pplv import absint
+    rid = "R12.13"
+    ctx.rule(rid, "bounds are ordered as positions on the extended line: an open lower bound at v stands just above v, an open upper bound just below it, a closed bound at v; -inf < every finite value < +inf. Boundary_NS::lt and eq (from which gt, le, ge are derived by swapping and negating; checked too) are interpreted on side x kind {-inf, finite, +inf} x OPEN flag of each bound and the order of the two finite values, and must answer what the positions say on every path, asking the underlying less_than / less_or_equal / equal only about two finite values")
+    want_fns = ("lt", "eq", "gt", "le", "ge")
+    fns = {}
+    for f in fx.functions:
+        if f.flag("pattern") and "Boundary_defs" in f.file and f.name in want_fns and [p["n"] for p in f.params] == ["type1", "x1", "info1", "type2", "x2", "info2"] and f.cfg:
+            fns.setdefault(f.name, f)
+    ctx.require(rid, set(fns) == set(want_fns), "Boundary_NS comparisons not found: %s" % ", ".join(sorted(set(want_fns) - set(fns))))
+    VAL = {"MINF": -1, "FIN": 0, "PINF": 1}
+
+    def interpret(name, st, depth=0):
+        f = fns[name]
+        if depth > 3:
+            raise absint.Unknown("recursion among the comparisons")
+
+        def which(args):
+            a = [x.replace(" ", "") for x in args]
+            if a == ["type1", "x1", "info1"]:
+                return 1
+            if a == ["type2", "x2", "info2"]:
+                return 2
+            raise absint.Unknown("bound `%s`" % ", ".join(args))
+
+        def atom(e, env, it):
+            t = f.text(e).replace(" ", "")
+            if e["k"] == "ref":
+                if t in ("LOWER", "UPPER"):
+                    return {t}
+                if t == "type1":
+                    return {st["t1"]}
+                if t == "type2":
+                    return {st["t2"]}
+                return None
+            if e["k"] in ("call", "mcall"):
+                cn = f.call_name(e).lstrip("~")
+                a = [f.text(x) for x in f.call_args(e)]
+                if cn == "is_open" and len(a) == 3:
+                    return {st["o%d" % which(a)]}
+                if cn in ("is_minus_infinity", "is_plus_infinity") and len(a) == 3:
+                    return {st["k%d" % which(a)] == ("MINF" if cn == "is_minus_infinity" else "PINF")}
+                if cn in ("less_than", "less_or_equal", "equal") and [x.replace(" ", "") for x in a] in (["x1", "x2"], ["x2", "x1"]):
+                    if st["k1"] != "FIN" or st["k2"] != "FIN":
+                        return {"NATIVE!"}
+                    r = st["rel"] if a[0].strip() == "x1" else -st["rel"]
+                    return {{"less_than": r < 0, "less_or_equal": r <= 0, "equal": r == 0}[cn]}
+                if cn in fns and len(a) == 6:
+                    b1, b2 = which(a[:3]), which(a[3:])
+                    if b1 == b2:
+                        raise absint.Unknown("a bound compared with itself")
+                    if (b1, b2) == (1, 2):
+                        st2 = st
+                    else:
+                        st2 = {"t1": st["t2"], "k1": st["k2"], "o1": st["o2"], "t2": st["t1"], "k2": st["k1"], "o2": st["o1"], "rel": -st["rel"]}
+                    return interpret(cn, st2, depth + 1)
+            return None
+        it = absint.CfgInterp(f, atom)
+        out = set()
+        for ret, env, ev_ in it.run({}):
+            out |= it.ev(ret["c"][0], env)
+        return out
+
+    n = 0
+    for name in want_fns:
+        f = fns[name]
+        bad = []
+        for t1, k1, o1, t2, k2, o2 in itertools.product(("LOWER", "UPPER"), ("MINF", "FIN", "PINF"), (False, True), ("LOWER", "UPPER"), ("MINF", "FIN", "PINF"), (False, True)):
+            for rel in ((-1, 0, 1) if k1 == "FIN" and k2 == "FIN" else (0,)):
+                st = {"t1": t1, "k1": k1, "o1": o1, "t2": t2, "k2": k2, "o2": o2, "rel": rel}
+                try:
+                    got = interpret(name, st)
+                except absint.Unknown as ex:
+                    raise F.AnalysisBroken("R12.13: %s: %s — the interpretation does not know this form" % (name, ex))
+                n += 1
+                eps = lambda t, o: 0 if not o else (1 if t == "LOWER" else -1)
+                p1 = (VAL[k1], rel if k1 == "FIN" and k2 == "FIN" else 0, eps(t1, o1))
+                p2 = (VAL[k2], 0, eps(t2, o2))
+                want = {"lt": p1 < p2, "eq": p1 == p2, "gt": p1 > p2, "le": p1 <= p2, "ge": p1 >= p2}[name]
+                if got != {want}:
+                    bad.append((st, got, want))
+        if bad:
+            def b(t, k, o, v):
+                return "%s %s %s" % (t.lower(), "open" if o else "closed", {"MINF": "-inf", "PINF": "+inf", "FIN": v}[k])
+            for st, got, want in bad[:12]:
+                v1, v2 = {(-1): ("1", "2"), 0: ("1", "1"), 1: ("2", "1")}[st["rel"]]
+                ctx.violation(rid, "%s(%s ; %s)" % (name, b(st["t1"], st["k1"], st["o1"], v1), b(st["t2"], st["k2"], st["o2"], v2)), f.where(),
+                              "the function answers %s; as positions on the extended line the answer is %s" % (" or ".join(sorted(str(v).lower() if isinstance(v, bool) else "the comparison of the underlying type on an infinite bound" for v in got)), str(want).lower()))
+        else:
+            ctx.ok(rid, "Boundary_NS::%s on the side / kind / openness abstraction" % name, f.where())
+    ctx.count(rid, "abstract states interpreted", n)
+    ctx.floor(rid, n, 5 * 152, "abstract states interpreted")
+
+
 def run(ctx):
     ctx.explanation = ("C12 side discipline of the interval layer on the template patterns of Interval_* and Boundary_defs.hh: consistent (side, value, info) triples, "
                        "direction derived from the side of the bound written, results combined; decides the discipline, not the sign case analysis of mul/div or linearisation")
@@ -704,6 +799,7 @@ def run(ctx):
     r12_10(ctx, fx)
     r12_11(ctx, fx)
     r12_12(ctx, fx)
+    r12_13(ctx, fx)
     from rules import idioms
     ctx.rule("R12.5", "copies agree: the per-format arms of the switches of the floating-point layer (compute_absolute_error caches one result per analysed format and reads the traits of that format) are copies of one another; in each arm the identifiers repeat exactly as in its siblings — the slot tested is the slot returned and the slot filled, and the three traits come from one struct")
     fxf = ctx.extract([F.driver_unit("all_headers.cc", file_re=r"(Float_(templates|inlines)|linearize|Linear_Form_templates|Interval_templates)\.hh")])
